@@ -200,6 +200,30 @@ func (o *Obligation) asserts(sliced bool, extra ...*Term) []*Term {
 	} else {
 		asserts = append([]*Term{}, o.Gen.Defs[:o.NDefs]...)
 	}
+	if sliced && o.famSlice && o.Goal != nil {
+		// keep only the definitions that talk about the heap components of the goal
+		// (and the purely scalar ones); dropping assumptions is sound for proving
+		fams := map[string]bool{}
+		for _, c := range arrayConsts(o.Goal) {
+			fams[heapFamily(c)] = true
+		}
+		if len(fams) > 0 && len(fams) <= 4 {
+			var kept []*Term
+			for _, d := range asserts {
+				ok := true
+				for _, c := range arrayConsts(d) {
+					if !fams[heapFamily(c)] {
+						ok = false
+						break
+					}
+				}
+				if ok {
+					kept = append(kept, d)
+				}
+			}
+			asserts = kept
+		}
+	}
 	asserts = append(asserts, extra...)
 	reach := o.Reach
 	if o.caseSub != nil {
@@ -489,6 +513,31 @@ func RunCheck(opts *CheckOpts) int {
 		seenRet[key] = true
 		canaries = append(canaries, &Obligation{Name: ShortKey(o.Fn) + "#canary" + strings.SplitN(o.Name[i:], "/", 2)[0], Kind: "canary", Fn: o.Fn, Clause: "path to this return is consistent", Pos: o.Pos, NDefs: o.NDefs, Reach: o.Reach, Goal: False, Gen: o.Gen, Canary: true})
 	}
+	// the same at every back edge: a loop body whose end is unreachable under the
+	// invariants would make every inv-preserved obligation hold vacuously
+	seenBE := map[string]int{}
+	for _, o := range all {
+		if o.Kind != "inv-preserved" || o.MustSat || o.Reach == nil {
+			continue
+		}
+		i := strings.Index(o.Name, "@loop")
+		if i < 0 {
+			continue
+		}
+		loop := strings.SplitN(o.Name[i:], "/", 2)[0]
+		key := fmt.Sprintf("%s%s#%d", o.Fn, loop, o.Reach.id)
+		if _, ok := seenBE[key]; ok {
+			continue
+		}
+		n := 0
+		for k := range seenBE {
+			if strings.HasPrefix(k, o.Fn+loop+"#") {
+				n++
+			}
+		}
+		seenBE[key] = n
+		canaries = append(canaries, &Obligation{Name: fmt.Sprintf("%s#canary%s.back%d", ShortKey(o.Fn), loop, n), Kind: "canary", Fn: o.Fn, Clause: "path to this back edge is consistent", Pos: o.Pos, NDefs: o.NDefs, Reach: o.Reach, Goal: False, Gen: o.Gen, Canary: true})
+	}
 	all = append(all, canaries...)
 	var re *regexp.Regexp
 	if opts.Only != "" {
@@ -687,6 +736,22 @@ func decide(o *Obligation, cfg *SolverCfg, known []KnownFinding, prop string, op
 		return &oblResult{O: o, Res: r0, Status: st}
 	}
 	if !o.MustSat && !cfg.CrossCheck {
+		// stage 0: the same, restricted to the heap components the goal mentions
+		for lvl := 0; lvl <= 1; lvl++ {
+			termMu.Lock()
+			o.seeded, o.ground, o.groundLevel, o.famSlice = true, true, lvl, true
+			sg := Script(o.asserts(true), true)
+			o.seeded, o.ground, o.groundLevel, o.famSlice = false, false, 0, false
+			termMu.Unlock()
+			if opts.KeepSMT != "" {
+				os.WriteFile(filepath.Join(opts.KeepSMT, fmt.Sprintf("%s.fam%d.smt2", sanitize(o.Name), lvl)), []byte(sg), 0o644)
+			}
+			rg := SolveFirstOnly(cfg, sg)
+			if rg.Status == "unsat" {
+				rg.Solver = "z3-new"
+				return &oblResult{O: o, Res: rg, Status: "proved"}
+			}
+		}
 		// stage 0a: goal-directed instances only (no residual user quantifiers),
 		// with 0, 1 and 3 rounds of instantiation
 		for lvl := 0; lvl <= 2; lvl++ {
@@ -1473,4 +1538,32 @@ func vacuousOrEmpty() []string {
 		return []string{}
 	}
 	return vacuousGlobal
+}
+
+var arrConstMemo = map[*Term][]*Term{}
+
+// arrayConsts: the array-sorted constants (heap component versions, fresh rows)
+// occurring in t.
+func arrayConsts(t *Term) []*Term {
+	if r, ok := arrConstMemo[t]; ok {
+		return r
+	}
+	seen := map[*Term]bool{}
+	var out []*Term
+	var rec func(x *Term)
+	rec = func(x *Term) {
+		if seen[x] {
+			return
+		}
+		seen[x] = true
+		if x.Op == "const" && x.S != nil && x.S.K == KArray {
+			out = append(out, x)
+		}
+		for _, a := range x.Args {
+			rec(a)
+		}
+	}
+	rec(t)
+	arrConstMemo[t] = out
+	return out
 }
